@@ -5,6 +5,8 @@ Stub: for the termination clause only, a RawPeer playing a GATT server from a ge
 """
 from __future__ import annotations
 
+import asyncio
+
 import struct
 
 from bsim import gattdb
@@ -53,7 +55,13 @@ def gen_db(rng, tier, seed):
         subs.append([rng.randrange(3), rng.randrange(100), rng.random() < 0.5])  # bearer index, char pick, prefer_notify
     for _ in range(rng.randint(0, 8)):
         pushes.append([rng.choice(['notify_subscribers', 'indicate_subscribers', 'notify_subscriber', 'indicate_subscriber', 'indicate_subscriber_bearer']),
-                       rng.randrange(100), rng.choice([-4, -3, -2, 0, 1, 10]), rng.randrange(3)])
+                       rng.randrange(100), rng.choice([-4, -3, -2, 0, 1, 10]), rng.randrange(3), rng.choice([-1, -1, -1, 0, 1, 2])])
+    if rng.random() < 0.25:
+        # fan-out: several bearers subscribed for indications of one characteristic, one of them possibly never confirming
+        nclients = 2
+        pick = rng.randrange(100)
+        subs = [[0, pick, False], [1, pick, False], [2, pick, False]] + subs
+        pushes.insert(rng.randrange(len(pushes) + 1), ['indicate_subscribers', pick, 0, 0, rng.choice([-1, 0, 1, 2])])
     return {'db': db, 'client_mtu': cm, 'server_mtu': sm, 'exchange': rng.random() < 0.8, 'nclients': nclients, 'eatt': eatt,
             'eatt_mtu': [rng.choice([64, 100, 247]), rng.choice([64, 100, 247])], 'subs': subs, 'pushes': pushes,
             'writes': rng.randint(0, 4), 'profile': rng.choice(PROFILE_NAMES), '_lists': ['subs', 'pushes']}
@@ -119,6 +127,8 @@ def run_db(case):
             def spy(pdu, b=b, orig=orig):
                 if pdu.op_code in (0x1B, 0x1D):
                     b['rx_kinds'].append((pdu.op_code, pdu.attribute_handle, bytes(pdu.attribute_value)))
+                    if pdu.op_code == 0x1D and b.get('mute'):
+                        return None  # this subscriber never confirms (the indication is lost in its application)
                 return orig(pdu)
 
             cl.on_gatt_pdu = spy
@@ -204,7 +214,9 @@ def run_db(case):
             # wire tap on the server: confirmations seen
             conf = {'n': 0}
             L2capTap(sim, srv_node, lambda d, h, cid, p: conf.__setitem__('n', conf['n'] + 1) if d == 'in' and ((cid == 4 and p[:1] == b'\x1e') or (cid >= 0x40 and p[2:3] == b'\x1e' and len(p) == 3)) else None)
-            for api_name, pick, dlen, bi in case['pushes']:
+            for push in case['pushes']:
+                api_name, pick, dlen, bi = push[:4]
+                mute_i = push[4] if len(push) > 4 else -1
                 (si, ci), ch = sub_chars[pick % len(sub_chars)]
                 vh = layout[si]['chars'][ci]['value_handle']
                 bi %= len(bearers)
@@ -235,7 +247,14 @@ def run_db(case):
                     scope = [bi]
                 want_kind = 'indicate' if indicate else 'notify'
                 expected = {i for i in scope if subscribed.get((i, vh)) == want_kind}
+                muted = None
+                if api_name == 'indicate_subscribers' and mute_i >= 0 and len(expected) >= 2:
+                    muted = sorted(expected)[mute_i % len(expected)]
+                    bearers[muted]['mute'] = True
+                    sim.fault('subscriber_never_confirms')
                 st, t = sim.run(coro, 90.0)
+                if muted is not None:
+                    bearers[muted]['mute'] = False
                 returned_conf = conf['n'] - conf0
                 sim.loop.settle()
                 label = f'{api_name}:{"eatt" if any(bearers[i]["kind"] == "eatt" for i in scope) else "fixed"}'
@@ -243,7 +262,7 @@ def run_db(case):
                     sim.violation_once('push-hang', f'push-hang:{api_name}', describe_task(t))
                     t.cancel()
                     continue
-                if t.exception() is not None:
+                if t.exception() is not None and not (muted is not None and isinstance(t.exception(), (TimeoutError, asyncio.TimeoutError))):
                     sim.violation_once('push-exc', f'push-raised:{api_name}:{type(t.exception()).__name__}', repr(t.exception()))
                     continue
                 for i, b_ in enumerate(bearers):
@@ -256,6 +275,8 @@ def run_db(case):
                             sim.violation_once(f'push-miss:{api_name}', f'push-not-delivered:{api_name}:subscribed={want_kind}:{b_["kind"]}', f'{b_["name"]} subscribed for {want_kind} got nothing')
                         elif kinds != [code]:
                             sim.violation_once(f'push-kind:{api_name}', f'push-wrong-pdu-kind:{api_name}:{b_["kind"]}', f'{b_["name"]} got opcodes {[hex(k) for k in kinds]}, wanted one {code:#x}')
+                        elif i == muted:
+                            sim.probe('indication_to_a_subscriber_that_never_confirms')
                         elif got_cb != [trunc]:
                             vals = [v for (k, h, v) in b_['rx_kinds'] if h == vh]
                             if vals and vals[0] != trunc:
@@ -268,8 +289,10 @@ def run_db(case):
                         if kinds:
                             sub = subscribed.get((i, vh), 'none')
                             sim.violation_once(f'push-extra:{api_name}', f'push-to-unsubscribed-bearer:{api_name}:subscribed={sub}:{b_["kind"]}', f'{b_["name"]} (subscription: {sub}) received {[hex(k) for k in kinds]}')
-                if indicate and expected and returned_conf < len(expected):
+                if indicate and expected and returned_conf < len(expected) - (1 if muted is not None else 0):
                     sim.violation_once(f'push-early:{api_name}', f'indicate-returned-before-confirmation:{api_name}', f'{returned_conf} confirmations on the wire when the call returned, {len(expected)} indications sent')
+        # ---------------------------------------------------------------- discovery filtered by UUID (last: it replaces the proxies' lists)
+        _filtered_discovery(sim, bearers[0], layout, case)
         sim.trace.shape(len(case['db']['services']), case['client_mtu'], case['server_mtu'], case['eatt'], tuple(sorted(subscribed.values())))
         return result(sim, nontrivial=sim.probes['multi_pdu_discovery'] > 0 or sim.probes['long_read'] > 0)
     finally:
@@ -297,6 +320,57 @@ async def _discover_all(api):
             await client.discover_descriptors(c)
     attrs = await client.discover_attributes()
     return services, attrs
+
+
+def _filtered_discovery(sim, b, layout, case):
+    """discover_service(uuid) / discover_characteristics([uuid], service) / discover_descriptors on what they return."""
+    import random
+
+    from bumble import core
+
+    client = b['client']
+    kind = b['kind']
+    rnd = random.Random(case['seed'] ^ 0x5EED)
+    prim = [s for s in layout if s['primary']]
+    if not prim:
+        return
+    for svc in rnd.sample(prim, min(2, len(prim))):
+        suuid = core.UUID.from_bytes(svc['uuid'])
+        st, t = sim.run(client.discover_service(suuid), 120.0)
+        if st != 'done' or t.exception() is not None:
+            sim.violation_once('fdisc', f'filtered-discovery:discover_service-failed:{kind}', str(st if st != 'done' else repr(t.exception())))
+            continue
+        got = [(x.handle, x.end_group_handle) for x in t.result()]
+        want = [(x['handle'], x['end']) for x in prim if _u128(x['uuid']) == _u128(svc['uuid'])]
+        if got != want:
+            sim.violation_once('fdisc-svc', f'filtered-discovery:services-differ:{kind}', f'discover_service gave {got}, the database has {want}')
+            continue
+        sp = next(x for x in t.result() if x.handle == svc['handle'])
+        if not svc['chars']:
+            continue
+        cw = rnd.choice(svc['chars'])
+        cuuid = core.UUID.from_bytes(cw['uuid'])
+        st, t = sim.run(client.discover_characteristics([cuuid], sp), 120.0)
+        if st != 'done' or t.exception() is not None:
+            sim.violation_once('fdisc', f'filtered-discovery:discover_characteristics-failed:{kind}', str(st if st != 'done' else repr(t.exception())))
+            continue
+        sim.probe('filtered_characteristic_discovery')
+        got = [(c.handle, c.end_group_handle, int(c.properties)) for c in t.result()]
+        want = [(c['value_handle'], c['end'], c['props']) for c in svc['chars'] if _u128(c['uuid']) == _u128(cw['uuid'])]
+        if got != want:
+            what = 'handles' if [g[0] for g in got] != [w[0] for w in want] else ('end-handles' if [g[1] for g in got] != [w[1] for w in want] else 'properties')
+            sim.violation_once('fdisc-chr', f'filtered-discovery:characteristics-differ:{what}:{kind}', f'discover_characteristics([uuid]) gave {got}, the database has {want}')
+            continue
+        for cp in t.result():
+            exp = next(c for c in svc['chars'] if c['value_handle'] == cp.handle)
+            st, t2 = sim.run(client.discover_descriptors(cp), 120.0)
+            if st != 'done' or t2.exception() is not None:
+                sim.violation_once('fdisc', f'filtered-discovery:discover_descriptors-failed:{kind}', str(st if st != 'done' else repr(t2.exception())))
+                continue
+            d_got = [d.handle for d in t2.result()]
+            d_want = [d['handle'] for d in exp['descs']]
+            if d_got != d_want:
+                sim.violation_once('fdisc-dsc', f'filtered-discovery:descriptors-differ:{kind}', f'char {cp.handle}: client {d_got}, expected {d_want}')
 
 
 def _client_chars(client):
